@@ -559,3 +559,650 @@ Proof.
   intros D. destruct j; try reflexivity.
   rewrite strip_map. cbn [top_lookup]. apply strip_lookup_keep; auto.
 Qed.
+
+(* ------------------------------------------------------------------------ *)
+(* owner references                                                          *)
+(* ------------------------------------------------------------------------ *)
+
+Lemma find_ref_r_done okvs l b :
+  find_ref_r (lookup "uid" okvs) l = Done b ->
+  existsb (fun r => same_uid r (JMap okvs)) l = b.
+Proof.
+  induction l as [|r rest IH]; cbn; [intros H; inversion H; auto|].
+  destruct r as [| | | | | |kvs]; try discriminate.
+  unfold same_uid at 1. cbn [uid_of].
+  destruct (uid_eq (lookup "uid" kvs) (lookup "uid" okvs)); cbn.
+  - intros H. inversion H. reflexivity.
+  - auto.
+Qed.
+
+Lemma has_owner_r_done o l b :
+  has_owner_r o l = Done b -> existsb (fun r => same_uid r o) l = b.
+Proof. destruct o; try discriminate. apply find_ref_r_done. Qed.
+
+Lemma updated_owner_refs_r_done view o r :
+  updated_owner_refs_r view o = Done r -> updated_owner_refs view o = r.
+Proof.
+  unfold updated_owner_refs_r, updated_owner_refs.
+  destruct (live_refs view) as [[l|]|]; try (intros H; inversion H; auto; fail).
+  destruct (has_owner_r o l) as [b|e] eqn:E; cbn; [|discriminate].
+  rewrite (has_owner_r_done _ _ _ E). intros H. inversion H. destruct b; auto.
+Qed.
+
+Lemma validate_owner_reffed_r_done view o r :
+  validate_owner_reffed_r view o = Done r -> validate_owner_reffed view o = r.
+Proof.
+  unfold validate_owner_reffed_r, validate_owner_reffed.
+  destruct (live_refs view) as [[l|]|]; try (intros H; inversion H; auto; fail).
+  destruct (has_owner_r o l) as [b|e] eqn:E; cbn; [|discriminate].
+  rewrite (has_owner_r_done _ _ _ E). intros H. inversion H. auto.
+Qed.
+
+Lemma extract_last_applied_r_done live ann o :
+  extract_last_applied_r live ann = Done o -> extract_last_applied live ann = o.
+Proof. unfold extract_last_applied. intros ->. reflexivity. Qed.
+
+(* the only exception the owner helpers raise is AttributeError *)
+Lemma find_ref_r_raises t l e : find_ref_r t l = Raised e -> e = ExAttributeError.
+Proof.
+  induction l as [|r rest IH]; cbn; [discriminate|].
+  destruct r; try (intros H; inversion H; auto; fail).
+  destruct (uid_eq _ _); [discriminate|auto].
+Qed.
+
+Lemma has_owner_r_raises o l e : has_owner_r o l = Raised e -> e = ExAttributeError.
+Proof. destruct o; cbn; try (intros H; inversion H; auto; fail). apply find_ref_r_raises. Qed.
+
+(* ... and it cannot happen when the owner and every reference are maps *)
+Definition is_map (j : json) : bool := match j with JMap _ => true | _ => false end.
+
+Lemma find_ref_r_total t l : forallb is_map l = true -> exists b, find_ref_r t l = Done b.
+Proof.
+  induction l as [|r rest IH]; cbn; eauto.
+  destruct r; try discriminate. cbn. intros H. destruct (uid_eq _ _); eauto.
+Qed.
+
+Lemma has_owner_r_total o l :
+  is_map o = true -> forallb is_map l = true -> exists b, has_owner_r o l = Done b.
+Proof. destruct o; try discriminate. intros _. apply find_ref_r_total. Qed.
+
+Lemma live_refs_owner_refs_of view x :
+  live_refs view = Some x -> owner_refs_of view = match x with Some l => l | None => [] end.
+Proof.
+  unfold live_refs, owner_refs_of, sub_map.
+  destruct view as [| | | | | |top]; try discriminate.
+  destruct (lookup "metadata" top) as [[| | | | | |md]|]; try discriminate.
+  destruct (lookup "ownerReferences" md) as [refs|]; [|intros H; inversion H; auto].
+  destruct (py_truthy refs) eqn:T; cbn.
+  - destruct refs; try discriminate. intros H. inversion H. auto.
+  - intros H. inversion H. destruct refs as [| | | | |[|a b]|]; auto. discriminate.
+Qed.
+
+Lemma meta_lookup_live_refs view L :
+  meta_lookup "ownerReferences" view = Some (JList L) ->
+  live_refs view = Some (match L with [] => None | _ => Some L end).
+Proof.
+  unfold meta_lookup, live_refs, sub_map.
+  destruct view as [| | | | | |top]; try discriminate.
+  destruct (lookup "metadata" top) as [[| | | | | |md]|]; try discriminate.
+  intros ->. destruct L; reflexivity.
+Qed.
+
+Definition has_meta_map (j : json) : bool :=
+  match j with
+  | JMap top => match sub_map "metadata" top with Some _ => true | None => false end
+  | _ => false
+  end.
+
+Lemma no_refs_live_refs view :
+  has_meta_map view = true -> meta_lookup "ownerReferences" view = None ->
+  live_refs view = Some None.
+Proof.
+  unfold has_meta_map, meta_lookup, live_refs, sub_map.
+  destruct view as [| | | | | |top]; try discriminate.
+  destruct (lookup "metadata" top) as [[| | | | | |md]|]; try discriminate.
+  intros _ ->. reflexivity.
+Qed.
+
+(* a lacking reference is appended to the live list *)
+Lemma validate_false_updated view o :
+  validate_owner_reffed_r view o = Done (Reffed false) ->
+  updated_owner_refs_r view o = Done (OwnerRefs (owner_refs_of view ++ [o])).
+Proof.
+  unfold validate_owner_reffed_r, updated_owner_refs_r.
+  destruct (live_refs view) as [[l|]|] eqn:E; try discriminate.
+  - rewrite (live_refs_owner_refs_of _ _ E).
+    destruct (has_owner_r o l) as [[|]|]; cbn; try discriminate. reflexivity.
+  - rewrite (live_refs_owner_refs_of _ _ E). reflexivity.
+Qed.
+
+(* a present reference leaves the list alone *)
+Lemma validate_true_updated view o :
+  validate_owner_reffed_r view o = Done (Reffed true) ->
+  updated_owner_refs_r view o = Done (OwnerRefs (owner_refs_of view)) /\
+  exists r, In r (owner_refs_of view) /\ same_uid r o = true.
+Proof.
+  unfold validate_owner_reffed_r, updated_owner_refs_r.
+  destruct (live_refs view) as [[l|]|] eqn:E; try discriminate.
+  rewrite (live_refs_owner_refs_of _ _ E).
+  destruct (has_owner_r o l) as [[|]|] eqn:F; cbn; try discriminate.
+  intros _. split; auto. apply has_owner_r_done in F. apply existsb_exists in F. auto.
+Qed.
+
+(* whatever it returns keeps every existing reference *)
+Lemma updated_owner_refs_incl view o l' :
+  updated_owner_refs_r view o = Done (OwnerRefs l') ->
+  incl (owner_refs_of view) l' /\
+  (In o l' \/ exists r, In r (owner_refs_of view) /\ same_uid r o = true).
+Proof.
+  unfold updated_owner_refs_r.
+  destruct (live_refs view) as [[l|]|] eqn:E; try discriminate;
+    rewrite (live_refs_owner_refs_of _ _ E).
+  - destruct (has_owner_r o l) as [[|]|] eqn:F; cbn; try discriminate; intros H; inversion H; subst.
+    + split; [apply incl_refl|]. right. apply has_owner_r_done in F. apply existsb_exists in F. auto.
+    + split; [apply incl_appl, incl_refl|]. left. apply in_or_app. right. cbn. auto.
+  - intros H. inversion H. split; [intros x []|]. left. cbn. auto.
+Qed.
+
+Lemma set_owner_refs_spec obj l obj' :
+  set_owner_refs obj l = Done obj' ->
+  has_meta_map obj = true /\
+  meta_lookup "ownerReferences" obj' = Some (JList l) /\
+  (forall k, String.eqb k "ownerReferences" = false -> meta_lookup k obj' = meta_lookup k obj) /\
+  (forall k, String.eqb k "metadata" = false -> top_lookup k obj' = top_lookup k obj).
+Proof.
+  unfold set_owner_refs, has_meta_map, meta_lookup, sub_map.
+  destruct obj as [| | | | | |top]; try discriminate.
+  destruct (lookup "metadata" top) as [[| | | | | |md]|] eqn:M; try discriminate.
+  intros H. inversion H. subst obj'. clear H. rewrite lookup_set_key_eq.
+  repeat split.
+  - apply lookup_set_key_eq.
+  - intros k N. apply lookup_set_key_neq; auto.
+  - intros k N. cbn [top_lookup]. apply lookup_set_key_neq; auto.
+Qed.
+
+Lemma set_owner_refs_total obj l :
+  has_meta_map obj = true -> exists obj', set_owner_refs obj l = Done obj'.
+Proof.
+  unfold set_owner_refs, has_meta_map, sub_map.
+  destruct obj as [| | | | | |top]; try discriminate.
+  destruct (lookup "metadata" top) as [[| | | | | |md]|]; try discriminate. eauto.
+Qed.
+
+Lemma send_done obj s : send obj = Done s -> exists p, s = Sent p /\ prepare_for_api obj = Done p.
+Proof.
+  unfold send. destruct (prepare_for_api obj); cbn; [|discriminate].
+  intros H. inversion H. eauto.
+Qed.
+
+(* metadata.ownerReferences of the body = the stripped one of the object prepared *)
+Lemma body_owner_refs obj p :
+  prepare_for_api obj = Done p ->
+  meta_lookup "ownerReferences" (body p) = option_map strip (meta_lookup "ownerReferences" obj).
+Proof.
+  intros H. rewrite (prepare_meta_lookup _ _ "ownerReferences" H); auto.
+  apply strip_meta_lookup. reflexivity.
+Qed.
+
+(* create ------------------------------------------------------------------ *)
+
+Lemma create_owner_iff owned owner_ns ns view o p :
+  has_meta_map view = true ->
+  meta_lookup "ownerReferences" view = None ->
+  create_payload owned owner_ns ns view o = Done (Sent p) ->
+  meta_lookup "ownerReferences" (body p) =
+    if should_own owned owner_ns ns then Some (JList [strip o]) else None.
+Proof.
+  intros HM HN. unfold create_payload.
+  destruct (should_own owned owner_ns ns).
+  - unfold updated_owner_refs_r. rewrite (no_refs_live_refs _ HM HN). cbn [bind].
+    destruct (set_owner_refs view [o]) as [v'|] eqn:S; cbn [bind]; [|discriminate].
+    intros H. apply send_done in H. destruct H as (p' & E & P). inversion E. subst p'.
+    rewrite (body_owner_refs _ _ P).
+    destruct (set_owner_refs_spec _ _ _ S) as (_ & R & _). rewrite R. cbn.
+    rewrite strip_list. reflexivity.
+  - intros H. apply send_done in H. destruct H as (p' & E & P). inversion E. subst p'.
+    rewrite (body_owner_refs _ _ P), HN. reflexivity.
+Qed.
+
+Lemma create_keeps_existing owned owner_ns ns view o p :
+  create_payload owned owner_ns ns view o = Done (Sent p) ->
+  if should_own owned owner_ns ns then
+    exists L', meta_lookup "ownerReferences" (body p) = Some (JList (map strip L')) /\
+               incl (owner_refs_of view) L' /\
+               (In o L' \/ exists r, In r (owner_refs_of view) /\ same_uid r o = true)
+  else meta_lookup "ownerReferences" (body p) =
+       option_map strip (meta_lookup "ownerReferences" view).
+Proof.
+  unfold create_payload. destruct (should_own owned owner_ns ns).
+  - destruct (updated_owner_refs_r view o) as [[l'|]|] eqn:U; cbn [bind]; try discriminate.
+    destruct (set_owner_refs view l') as [v'|] eqn:S; cbn [bind]; [|discriminate].
+    intros H. apply send_done in H. destruct H as (p' & E & P). inversion E. subst p'.
+    exists l'. rewrite (body_owner_refs _ _ P).
+    destruct (set_owner_refs_spec _ _ _ S) as (_ & R & _). rewrite R. cbn. rewrite strip_list.
+    split; auto. apply updated_owner_refs_incl; auto.
+  - intros H. apply send_done in H. destruct H as (p' & E & P). inversion E. subst p'.
+    apply body_owner_refs; auto.
+Qed.
+
+(* holders_ok is insensitive to set_owner_refs *)
+Lemma holders_ok_set_owner_refs obj l obj' :
+  set_owner_refs obj l = Done obj' -> holders_ok (strip obj') = holders_ok (strip obj).
+Proof.
+  unfold set_owner_refs.
+  destruct obj as [| | | | | |top]; try discriminate.
+  destruct (lookup "metadata" top) as [[| | | | | |md]|] eqn:M; try discriminate.
+  intros H. inversion H. subst obj'. clear H.
+  rewrite !strip_map. unfold holders_ok.
+  rewrite !strip_lookup_keep by reflexivity. rewrite lookup_set_key_eq, M. cbn [option_map].
+  rewrite !strip_map, !strip_lookup_keep by reflexivity.
+  rewrite lookup_set_key_neq by reflexivity. reflexivity.
+Qed.
+
+Lemma create_total owned owner_ns ns view o :
+  has_meta_map view = true ->
+  meta_lookup "ownerReferences" view = None ->
+  holders_ok (strip view) = true ->
+  exists p, create_payload owned owner_ns ns view o = Done (Sent p).
+Proof.
+  intros HM HN HO. unfold create_payload. destruct (should_own owned owner_ns ns).
+  - unfold updated_owner_refs_r. rewrite (no_refs_live_refs _ HM HN). cbn [bind].
+    destruct (set_owner_refs_total view [o] HM) as [v' S]. rewrite S. cbn [bind].
+    rewrite <- (holders_ok_set_owner_refs _ _ _ S) in HO.
+    apply prepare_total in HO. destruct HO as [p P]. exists p. unfold send. rewrite P. reflexivity.
+  - apply prepare_total in HO. destruct HO as [p P]. exists p. unfold send. rewrite P. reflexivity.
+Qed.
+
+(* patch ------------------------------------------------------------------- *)
+
+Lemma needs_update_when_lacking matched : needs_update matched (Reffed false) = true.
+Proof. unfold needs_update. cbn. rewrite Bool.andb_false_r. reflexivity. Qed.
+
+Lemma needs_update_spec matched rr :
+  needs_update matched rr = false <-> matched = true /\ reffed_truthy rr = true.
+Proof.
+  unfold needs_update. rewrite Bool.negb_false_iff, Bool.andb_true_iff. tauto.
+Qed.
+
+Lemma patch_owner_added owned owner_ns ns live target o p :
+  should_own owned owner_ns ns = true ->
+  validate_owner_reffed_r live o = Done (Reffed false) ->
+  patch_payload owned owner_ns ns live target o = Done (Sent p) ->
+  meta_lookup "ownerReferences" (body p) =
+    Some (JList (map strip (owner_refs_of live ++ [o]))).
+Proof.
+  intros SO V. unfold patch_payload, owner_reffed_r. rewrite SO, V. cbn [bind reffed_truthy negb andb].
+  rewrite (validate_false_updated _ _ V). cbn [bind].
+  destruct (set_owner_refs target (owner_refs_of live ++ [o])) as [t'|] eqn:S; cbn [bind]; [|discriminate].
+  intros H. apply send_done in H. destruct H as (p' & E & P). inversion E. subst p'.
+  rewrite (body_owner_refs _ _ P).
+  destruct (set_owner_refs_spec _ _ _ S) as (_ & R & _). rewrite R. cbn. rewrite strip_list. reflexivity.
+Qed.
+
+Lemma patch_owner_untouched owned owner_ns ns live target o rr p :
+  owner_reffed_r owned owner_ns ns live o = Done rr ->
+  should_own owned owner_ns ns && negb (reffed_truthy rr) = false ->
+  patch_payload owned owner_ns ns live target o = Done (Sent p) ->
+  prepare_for_api target = Done p /\
+  meta_lookup "ownerReferences" (body p) = option_map strip (meta_lookup "ownerReferences" target).
+Proof.
+  intros R C. unfold patch_payload. rewrite R. cbn [bind]. rewrite C.
+  intros H. apply send_done in H. destruct H as (p' & E & P). inversion E. subst p'.
+  split; auto. apply body_owner_refs; auto.
+Qed.
+
+(* the three ways through patch_payload *)
+Lemma patch_payload_cases owned owner_ns ns live target o s :
+  patch_payload owned owner_ns ns live target o = Done s ->
+  (should_own owned owner_ns ns = true /\
+   validate_owner_reffed_r live o = Done (Reffed false) /\
+   exists t', set_owner_refs target (owner_refs_of live ++ [o]) = Done t' /\ send t' = Done s)
+  \/
+  (exists rr, owner_reffed_r owned owner_ns ns live o = Done rr /\
+              should_own owned owner_ns ns && negb (reffed_truthy rr) = false /\
+              send target = Done s).
+Proof.
+  unfold patch_payload.
+  destruct (owner_reffed_r owned owner_ns ns live o) as [rr|] eqn:R; cbn [bind]; [|discriminate].
+  destruct (should_own owned owner_ns ns && negb (reffed_truthy rr)) eqn:C.
+  - apply Bool.andb_true_iff in C. destruct C as [SO NR].
+    unfold owner_reffed_r in R. rewrite SO in R.
+    destruct rr as [[|]|]; try discriminate.
+    rewrite (validate_false_updated _ _ R). cbn [bind].
+    destruct (set_owner_refs target (owner_refs_of live ++ [o])) as [t'|] eqn:S; cbn [bind]; [|discriminate].
+    intros H. left. repeat split; auto. eauto.
+  - intros H. right. exists rr. auto.
+Qed.
+
+(* ------------------------------------------------------------------------ *)
+(* RFC 7386 merge patch                                                      *)
+(* ------------------------------------------------------------------------ *)
+
+Fixpoint mp_go (l acc : list (string * json)) : list (string * json) :=
+  match l with
+  | [] => acc
+  | (k, v) :: r =>
+      match v with
+      | JNull => mp_go r (del_key k acc)
+      | _ => mp_go r (set_key k (merge_patch (match lookup k acc with Some o => o | None => JNull end) v) acc)
+      end
+  end.
+
+Lemma merge_patch_map target pkvs :
+  merge_patch target (JMap pkvs) = JMap (mp_go pkvs (match target with JMap t => t | _ => [] end)).
+Proof. reflexivity. Qed.
+
+Lemma merge_patch_nonmap target patch : is_map patch = false -> merge_patch target patch = patch.
+Proof. destruct patch; try reflexivity. discriminate. Qed.
+
+Global Opaque merge_patch.
+
+Lemma mp_go_notin k l : forall acc, ~ In k (map fst l) -> lookup k (mp_go l acc) = lookup k acc.
+Proof.
+  induction l as [|[k' v] r IH]; intros acc N; cbn; auto.
+  cbn in N. assert (K : String.eqb k k' = false) by (apply String.eqb_neq; intros C; subst; auto).
+  assert (N' : ~ In k (map fst r)) by auto.
+  destruct v; rewrite IH by auto;
+    try (apply lookup_set_key_neq; auto); apply lookup_del_key_neq; auto.
+Qed.
+
+Lemma mp_go_in k v l : forall acc,
+  nodup_str (map fst l) = true -> lookup k l = Some v -> v <> JNull ->
+  lookup k (mp_go l acc) =
+  Some (merge_patch (match lookup k acc with Some o => o | None => JNull end) v).
+Proof.
+  induction l as [|[k' v'] r IH]; intros acc ND L NN; [discriminate|].
+  cbn in ND. apply Bool.andb_true_iff in ND. destruct ND as [ND1 ND2].
+  apply Bool.negb_true_iff, mem_str_false in ND1.
+  cbn in L. destruct (String.eqb k k') eqn:E.
+  - apply String.eqb_eq in E. subst k'. inversion L. subst v'.
+    cbn. destruct v; try congruence; rewrite mp_go_notin by auto; apply lookup_set_key_eq.
+  - cbn. destruct v'; rewrite IH by auto;
+      try (rewrite lookup_set_key_neq by auto; reflexivity).
+    rewrite lookup_del_key_neq by auto. reflexivity.
+Qed.
+
+(* keys unique at the top level and inside metadata *)
+Definition nodup2 (j : json) : bool :=
+  match j with
+  | JMap top =>
+      nodup_str (map fst top) &&
+      match sub_map "metadata" top with Some md => nodup_str (map fst md) | None => true end
+  | _ => true
+  end.
+
+Lemma wf_nodup2 j : wf j = true -> nodup2 j = true.
+Proof.
+  destruct j as [| | | | | |top]; auto. rewrite wf_map. unfold nodup2, sub_map.
+  intros H. apply Bool.andb_true_iff in H. destruct H as [A B]. rewrite A. cbn.
+  destruct (lookup "metadata" top) as [[| | | | | |md]|] eqn:M; auto.
+  pose proof (wf_kvs_lookup _ _ _ B M) as W. rewrite wf_map in W.
+  apply Bool.andb_true_iff in W. tauto.
+Qed.
+
+Lemma nodup2_strip j : nodup2 j = true -> nodup2 (strip j) = true.
+Proof.
+  destruct j as [| | | | | |top]; auto. rewrite strip_map. unfold nodup2.
+  rewrite strip_sub_map by reflexivity. intros H. apply Bool.andb_true_iff in H. destruct H as [A B].
+  rewrite nodup_strip_kvs by auto. cbn.
+  destruct (sub_map "metadata" top); cbn; auto. apply nodup_strip_kvs; auto.
+Qed.
+
+Lemma nodup2_set_owner_refs obj l obj' :
+  nodup2 obj = true -> set_owner_refs obj l = Done obj' -> nodup2 obj' = true.
+Proof.
+  unfold set_owner_refs, nodup2, sub_map.
+  destruct obj as [| | | | | |top]; try discriminate.
+  destruct (lookup "metadata" top) as [[| | | | | |md]|] eqn:M; try discriminate.
+  intros H E. inversion E. subst obj'. apply Bool.andb_true_iff in H. destruct H as [A B].
+  rewrite lookup_set_key_eq, !nodup_set_key; auto.
+Qed.
+
+Lemma nodup2_body obj p : nodup2 obj = true -> prepare_for_api obj = Done p -> nodup2 (body p) = true.
+Proof.
+  intros N H. destruct (prepare_done _ _ H) as (top & md & an & S & M & A & B & R).
+  apply nodup2_strip in N. rewrite S in N. rewrite B. unfold nodup2, sub_map in *.
+  apply Bool.andb_true_iff in N. destruct N as [N1 N2].
+  rewrite lookup_set_key_eq. apply Bool.andb_true_iff. split.
+  - apply nodup_set_key. unfold ensure_key. destruct (lookup "metadata" top); auto.
+    apply nodup_set_key; auto.
+  - apply nodup_set_key. rewrite lookup_ensure_key_eq in M.
+    assert (NM : nodup_str (map fst md) = true).
+    { destruct (lookup "metadata" top) as [m|]; inversion M; subst; auto. }
+    unfold ensure_key. destruct (lookup "annotations" md); auto. apply nodup_set_key; auto.
+Qed.
+
+(* what a PATCH body does to metadata.ownerReferences of the stored object *)
+Lemma merge_owner_refs live b L :
+  nodup2 b = true -> has_meta_map b = true ->
+  meta_lookup "ownerReferences" live = Some (JList L) ->
+  owner_refs_of (merge_patch live b) =
+    match meta_lookup "ownerReferences" b with
+    | None => L
+    | Some (JList X) => X
+    | Some _ => owner_refs_of (merge_patch live b)
+    end.
+Proof.
+  unfold nodup2, has_meta_map, meta_lookup, sub_map.
+  destruct b as [| | | | | |btop]; try discriminate.
+  destruct (lookup "metadata" btop) as [[| | | | | |bmd]|] eqn:BM; try discriminate.
+  intros ND _. apply Bool.andb_true_iff in ND. destruct ND as [ND1 ND2].
+  destruct live as [| | | | | |ltop]; try discriminate.
+  destruct (lookup "metadata" ltop) as [[| | | | | |lmd]|] eqn:LM; try discriminate.
+  intros LR.
+  rewrite merge_patch_map. unfold owner_refs_of, sub_map.
+  rewrite (mp_go_in "metadata" (JMap bmd) btop ltop ND1 BM) by discriminate.
+  rewrite LM, merge_patch_map.
+  destruct (lookup "ownerReferences" bmd) as [x|] eqn:BO.
+  - destruct x; try reflexivity.
+    rewrite (mp_go_in "ownerReferences" (JList l) bmd lmd ND2 BO) by discriminate.
+    rewrite merge_patch_nonmap by reflexivity. reflexivity.
+  - rewrite mp_go_notin by (apply lookup_None_notin; auto). rewrite LR. reflexivity.
+Qed.
+
+Lemma body_has_meta_map obj p : prepare_for_api obj = Done p -> has_meta_map (body p) = true.
+Proof.
+  intros H. destruct (prepare_done _ _ H) as (top & md & an & S & M & A & B & R).
+  rewrite B. unfold has_meta_map, sub_map. rewrite lookup_set_key_eq. reflexivity.
+Qed.
+
+Lemma strip_clean_list L : has_directive (JList L) = false -> map strip L = L.
+Proof.
+  intros H. pose proof (strip_clean_id _ H) as E. rewrite strip_list in E. inversion E.
+  rewrite H1. auto.
+Qed.
+
+(* patch_preserves_owners, general form: each pre-existing reference is still
+   there, as it was or (only if it carried koreo directive keys and the owner
+   was being added) with those keys stripped *)
+Lemma patch_preserves_owners_gen owned owner_ns ns live target o s L :
+  wf target = true ->
+  meta_lookup "ownerReferences" live = Some (JList L) ->
+  meta_lookup "ownerReferences" target = None ->
+  patch_payload owned owner_ns ns live target o = Done s ->
+  exists p, s = Sent p /\
+    (owner_refs_of (apply_patch live s) = L \/
+     owner_refs_of (apply_patch live s) = map strip L ++ [strip o]).
+Proof.
+  intros W LR TN H. apply wf_nodup2 in W.
+  assert (OL : owner_refs_of live = L).
+  { rewrite (live_refs_owner_refs_of _ _ (meta_lookup_live_refs _ _ LR)). destruct L; auto. }
+  destruct (patch_payload_cases _ _ _ _ _ _ _ H) as [(SO & V & t' & S & SD)|(rr & R & C & SD)].
+  - apply send_done in SD. destruct SD as (p & E & P). subst s. exists p. split; auto. right.
+    cbn [apply_patch].
+    rewrite (merge_owner_refs live (body p) L); auto.
+    + rewrite (body_owner_refs _ _ P).
+      destruct (set_owner_refs_spec _ _ _ S) as (_ & RR & _). rewrite RR. cbn.
+      rewrite strip_list, OL, map_app. reflexivity.
+    + apply (nodup2_body t'); auto. apply (nodup2_set_owner_refs target _ _ W S).
+    + apply (body_has_meta_map _ _ P).
+  - apply send_done in SD. destruct SD as (p & E & P). subst s. exists p. split; auto. left.
+    cbn [apply_patch].
+    rewrite (merge_owner_refs live (body p) L); auto.
+    + rewrite (body_owner_refs _ _ P), TN. reflexivity.
+    + apply (nodup2_body target); auto.
+    + apply (body_has_meta_map _ _ P).
+Qed.
+
+Lemma patch_preserves_owners owned owner_ns ns live target o s L :
+  wf target = true ->
+  meta_lookup "ownerReferences" live = Some (JList L) ->
+  meta_lookup "ownerReferences" target = None ->
+  has_directive (JList L) = false ->
+  patch_payload owned owner_ns ns live target o = Done s ->
+  incl L (owner_refs_of (apply_patch live s)).
+Proof.
+  intros W LR TN C H.
+  destruct (patch_preserves_owners_gen _ _ _ _ _ _ _ _ W LR TN H) as (p & E & [R|R]); rewrite R.
+  - apply incl_refl.
+  - rewrite (strip_clean_list _ C). apply incl_appl, incl_refl.
+Qed.
+
+(* and the patch adds exactly the parent when it was lacking *)
+Lemma patch_result_refs owned owner_ns ns live target o s L :
+  wf target = true ->
+  meta_lookup "ownerReferences" live = Some (JList L) ->
+  meta_lookup "ownerReferences" target = None ->
+  has_directive (JList L) = false -> has_directive o = false ->
+  patch_payload owned owner_ns ns live target o = Done s ->
+  owner_refs_of (apply_patch live s) =
+    match owner_reffed_r owned owner_ns ns live o with
+    | Done (Reffed false) => L ++ [o]
+    | _ => L
+    end.
+Proof.
+  intros W LR TN C CO H. apply wf_nodup2 in W.
+  assert (OL : owner_refs_of live = L).
+  { rewrite (live_refs_owner_refs_of _ _ (meta_lookup_live_refs _ _ LR)). destruct L; auto. }
+  destruct (patch_payload_cases _ _ _ _ _ _ _ H) as [(SO & V & t' & S & SD)|(rr & R & CC & SD)].
+  - unfold owner_reffed_r. rewrite SO, V.
+    apply send_done in SD. destruct SD as (p & E & P). subst s. cbn [apply_patch].
+    rewrite (merge_owner_refs live (body p) L); auto.
+    + rewrite (body_owner_refs _ _ P).
+      destruct (set_owner_refs_spec _ _ _ S) as (_ & RR & _). rewrite RR. cbn.
+      rewrite strip_list, OL, map_app, (strip_clean_list _ C). cbn. rewrite (strip_clean_id _ CO). reflexivity.
+    + apply (nodup2_body t'); auto. apply (nodup2_set_owner_refs target _ _ W S).
+    + apply (body_has_meta_map _ _ P).
+  - rewrite R.
+    apply send_done in SD. destruct SD as (p & E & P). subst s. cbn [apply_patch].
+    rewrite (merge_owner_refs live (body p) L); auto.
+    + rewrite (body_owner_refs _ _ P), TN. cbn.
+      destruct rr as [[|]|]; auto.
+      unfold owner_reffed_r in R. destruct (should_own owned owner_ns ns); [|inversion R].
+      cbn in CC. discriminate.
+    + apply (nodup2_body target); auto.
+    + apply (body_has_meta_map _ _ P).
+Qed.
+
+(* kr8s leaves a body alone that already names its kind/version/namespace *)
+Lemma kr8s_post_id ns kind version b :
+  top_lookup "kind" b = Some (JStr kind) ->
+  top_lookup "apiVersion" b = Some (JStr version) ->
+  (forall n, ns = Some n -> meta_lookup "namespace" b = Some (JStr n)) ->
+  kr8s_post ns kind version b = b.
+Proof.
+  destruct b as [| | | | | |top]; auto. cbn [top_lookup]. unfold meta_lookup, kr8s_post.
+  intros K V N.
+  assert (E : match ns, sub_map "metadata" top with
+              | Some n, Some md => set_key "metadata" (JMap (set_key "namespace" (JStr n) md)) top
+              | _, _ => top
+              end = top).
+  { destruct ns as [n|]; auto. specialize (N n eq_refl). unfold sub_map in *.
+    destruct (lookup "metadata" top) as [[| | | | | |md]|] eqn:M; auto.
+    rewrite (set_key_same _ _ _ N), (set_key_same _ _ _ M). reflexivity. }
+  rewrite E, (set_key_same _ _ _ K), (set_key_same _ _ _ V). reflexivity.
+Qed.
+
+(* what ensure_holders changes: nothing but the two holder maps, and those
+   only by creating them empty *)
+Lemma ensure_holders_spec j :
+  (forall k, String.eqb k "metadata" = false ->
+             top_lookup k (ensure_holders j) = top_lookup k j) /\
+  (forall k, String.eqb k "annotations" = false ->
+             meta_lookup k (ensure_holders j) = meta_lookup k j) /\
+  (forall a, meta_lookup "annotations" j = Some a ->
+             meta_lookup "annotations" (ensure_holders j) = Some a) /\
+  (meta_lookup "annotations" j = None ->
+             ensure_holders j = j \/ meta_lookup "annotations" (ensure_holders j) = Some (JMap [])).
+Proof.
+  destruct j as [| | | | | |top]; try (repeat split; auto; fail).
+  unfold ensure_holders, sub_map. rewrite lookup_ensure_key_eq.
+  destruct (lookup "metadata" top) as [m|] eqn:M.
+  - destruct m as [| | | | | |md]; try (repeat split; auto; fail).
+    assert (E : ensure_key "metadata" top = top) by (unfold ensure_key; rewrite M; auto).
+    rewrite E. unfold meta_lookup, sub_map. cbn [top_lookup]. rewrite lookup_set_key_eq, M.
+    repeat split.
+    + intros k N. apply lookup_set_key_neq; auto.
+    + intros k N. apply lookup_ensure_key_neq; auto.
+    + intros a A. rewrite lookup_ensure_key_eq, A. reflexivity.
+    + intros A. right. rewrite lookup_ensure_key_eq, A. reflexivity.
+  - unfold meta_lookup, sub_map. cbn [top_lookup]. rewrite lookup_set_key_eq, M.
+    repeat split.
+    + intros k N. rewrite lookup_set_key_neq, lookup_ensure_key_neq; auto.
+    + intros k N. rewrite lookup_ensure_key_neq; auto.
+    + discriminate.
+    + intros _. right. reflexivity.
+Qed.
+
+(* ------------------------------------------------------------------------ *)
+(* the statements of props/P_C08.v that combine several lemmas               *)
+(* ------------------------------------------------------------------------ *)
+
+Lemma body_recorded_no_directive obj p :
+  prepare_for_api obj = Done p ->
+  has_directive (body p) = false /\ has_directive (recorded p) = false.
+Proof.
+  intros H. split; [exact (body_no_directive obj p H)|].
+  rewrite (recorded_is_strip obj p H). apply strip_no_directive.
+Qed.
+
+Lemma strip_only_removes j j' : prunes j j' <-> j' = strip j.
+Proof. split; [apply prunes_unique|]. intros ->. apply strip_prunes. Qed.
+
+Lemma strip_map_entries kvs :
+  exists kvs', strip (JMap kvs) = JMap kvs' /\
+    map fst kvs' = filter (fun k => negb (is_directive k)) (map fst kvs) /\
+    forall k, lookup k kvs' =
+              if is_directive k then None else option_map strip (lookup k kvs).
+Proof.
+  exists (strip_kvs kvs). split; [apply strip_map|]. split; [apply strip_keys|].
+  intros k. destruct (is_directive k) eqn:D; [apply strip_lookup_drop|apply strip_lookup_keep]; auto.
+Qed.
+
+Lemma strip_list_items l :
+  exists l', strip (JList l) = JList l' /\ List.length l' = List.length l /\
+    forall n, nth_error l' n = option_map strip (nth_error l n).
+Proof. exists (map strip l). split; [apply strip_list|]. apply strip_list_shape. Qed.
+
+Lemma last_applied_truthful obj p :
+  prepare_for_api obj = Done p ->
+  annotation_of (strip obj) = None ->
+  recorded p = strip obj /\
+  annotation_of (body p) = Some annotation_placeholder /\
+  remove_annotation (body p) = ensure_holders (recorded p) /\
+  drop_empty_holders (remove_annotation (body p)) = drop_empty_holders (recorded p).
+Proof.
+  intros H N. pose proof (recorded_is_strip obj p H) as R.
+  split; [exact R|]. split; [exact (annotation_present obj p H)|]. split.
+  - rewrite R. apply (remove_annotation_body obj p); auto.
+  - apply (drop_remove_annotation_body obj p); auto.
+Qed.
+
+Lemma views_agree view o :
+  (forall r, updated_owner_refs_r view o = Done r -> updated_owner_refs view o = r) /\
+  (forall r, validate_owner_reffed_r view o = Done r -> validate_owner_reffed view o = r) /\
+  (forall ann r, extract_last_applied_r view ann = Done r -> extract_last_applied view ann = r) /\
+  (forall e, updated_owner_refs_r view o = Raised e -> e = ExAttributeError) /\
+  (forall e, validate_owner_reffed_r view o = Raised e -> e = ExAttributeError).
+Proof.
+  repeat split.
+  - intros r. apply updated_owner_refs_r_done.
+  - intros r. apply validate_owner_reffed_r_done.
+  - intros ann r. apply extract_last_applied_r_done.
+  - intros e. unfold updated_owner_refs_r. destruct (live_refs view) as [[l|]|]; try discriminate.
+    destruct (has_owner_r o l) eqn:E; cbn; [discriminate|]. intros H. inversion H. subst.
+    apply (has_owner_r_raises _ _ _ E).
+  - intros e. unfold validate_owner_reffed_r. destruct (live_refs view) as [[l|]|]; try discriminate.
+    destruct (has_owner_r o l) eqn:E; cbn; [discriminate|]. intros H. inversion H. subst.
+    apply (has_owner_r_raises _ _ _ E).
+Qed.
